@@ -91,6 +91,25 @@ pub fn axial_iso(r: &mut StdRng) -> Iso {
     Iso { r: oracle::rot('z', r.gen_range(-PI..PI)), t: [0.0, 0.0, r.gen_range(0.02..0.4)] }
 }
 
+pub fn random_pgram(r: &mut StdRng) -> LayerF {
+    let driven = r.gen_range(0..6);
+    let mut coupled = r.gen_range(0..5);
+    if coupled >= driven { coupled += 1; }
+    let scaling = match r.gen_range(0..4) { 0 => 1.0, 1 => -1.0, _ => r.gen_range(-2.0..2.0) };
+    LayerF::Pgram { driven, coupled, scaling }
+}
+
+/// joint vector of the whole stack that makes the leaf see `leaf_q` (couplings undone, innermost first)
+pub fn outer_joints(layers: &[LayerF], leaf_q: &Joints) -> Joints {
+    let mut q = *leaf_q;
+    for l in layers.iter().rev() {
+        if let LayerF::Pgram { driven, coupled, scaling } = l {
+            q[*coupled] += scaling * q[*driven];
+        }
+    }
+    q
+}
+
 pub fn stack_for(class: &str, r: &mut StdRng) -> Vec<LayerF> {
     match class {
         "tool" => vec![LayerF::Tool(random_iso(r, 0.3))],
@@ -98,6 +117,9 @@ pub fn stack_for(class: &str, r: &mut StdRng) -> Vec<LayerF> {
         "base+tool" => vec![LayerF::Tool(random_iso(r, 0.3)), LayerF::Base(random_iso(r, 0.5))],
         "tool>base" => vec![LayerF::Base(random_iso(r, 0.5)), LayerF::Tool(random_iso(r, 0.3))],
         "frame" => vec![LayerF::Frame(random_iso(r, 0.3))],
+        "pgram" => vec![random_pgram(r)],
+        "tool>pgram" => vec![LayerF::Tool(random_iso(r, 0.3)), random_pgram(r)],
+        "pgram>pgram" => vec![random_pgram(r), random_pgram(r)],
         "axial-tool" => vec![LayerF::Tool(axial_iso(r))],
         "base+axial-tool" => vec![LayerF::Tool(axial_iso(r)), LayerF::Base(random_iso(r, 0.5))],
         _ => vec![],
@@ -226,10 +248,13 @@ pub fn instance(sc: &Value, r: &mut StdRng) -> Value {
     let mut q = from_effective(&p, &e);
     if dof == 5 && !five_entry && entry == "inverse" { q[5] = 0.0; } // a 5-DOF robot's plain inverse answers with J6 = 0
     let layers = stack_for(sc["stack"].as_str().unwrap(), r);
+    let leaf_q = q;
+    let pgram = layers.iter().any(|l| matches!(l, LayerF::Pgram { .. }));
+    let q = outer_joints(&layers, &leaf_q);
     let w16 = sc["w16"].as_i64().unwrap();
     let limits = limits_for(sc["limits"].as_str().unwrap(), &q, w16 as f64 / 16.0, r);
     let robot = Robot::new(p, layers, limits);
-    let m = margins(&p, &q);
+    let m = margins(&p, &leaf_q);
     // pose
     let mut want = robot.ofk(&q);
     let mut pose_ok = true;
@@ -238,7 +263,7 @@ pub fn instance(sc: &Value, r: &mut StdRng) -> Value {
         "unreachable" => {
             let far = 3.0 * (p.a1.abs() + p.a2.abs() + p.b.abs() + p.c1.abs() + p.c2 + p.c3 + p.c4) + 2.0;
             // shift the LEAF pose far away: express through the stack by moving the flange
-            let mut leaf = oracle::fk(&p, &q);
+            let mut leaf = oracle::fk(&p, &leaf_q);
             let dir = [r.gen_range(-1.0..1.0), r.gen_range(-1.0..1.0), r.gen_range(0.2..1.0f64)];
             let n = oracle::norm(&dir);
             leaf.t = oracle::add(&leaf.t, &oracle::scale(far / n, &dir));
@@ -318,6 +343,7 @@ pub fn instance(sc: &Value, r: &mut StdRng) -> Value {
     ev.insert("w16".into(), json!(if robot.limits.is_some() { w16 } else { 0 }));
     ev.insert("centres".into(), json!(au6(&c)));
     ev.insert("lim".into(), json!(robot.limits.is_some()));
+    ev.insert("pgram".into(), json!(pgram));
     ev.insert("from".into(), json!(lf));
     ev.insert("to".into(), json!(lt));
     ev.insert("answers".into(), json!(ans.iter().map(|a| answer_facts(&robot, &want, a)).collect::<Vec<_>>()));
@@ -395,7 +421,7 @@ pub fn record_follow(output: &str) {
             let want = robot.ofk(q);
             let ans = call(robot.kin.as_ref(), "inverse_continuing", &want.to_na(), &prev, 0.0);
             let mut ev = json!({"ev": "follow", "k": k + 1, "entry": "inverse_continuing", "dof": 6, "geom": class, "stack": stack_class,
-                "pose_ok": true, "reach": "yes", "prev": au6(&prev), "prev_in_range": true, "j6_equal": [], "w16": 0, "centres": [0,0,0,0,0,0],
+                "pose_ok": true, "reach": "yes", "pgram": false, "prev": au6(&prev), "prev_in_range": true, "j6_equal": [], "w16": 0, "centres": [0,0,0,0,0,0],
                 "lim": false, "from": [0,0,0,0,0,0], "to": [0,0,0,0,0,0], "plain": [], "free": [], "resolve": [], "twin_shift5": 0,
                 "truth": {"known": true, "q": au6(q), "nonsingular": true, "wrist_ok": true, "realised_by_prev": false}});
             match ans {
